@@ -86,6 +86,7 @@ type Scenario struct {
 	NoOutside  bool `json:"nooutside"`  // no ext writes
 	NoPreempt  bool `json:"nopreempt"`  // no instance has takeover enabled
 	FaultFree  bool `json:"faultfree"`  // all of the above + healthy + no connection events + no watch failures
+	MockErrs   bool          `json:"mockerrs,omitempty"` // the store words its refusals like the package's mock
 	MaxLat     time.Duration `json:"maxlat"`    // promised bound on the latency of every answered operation (0 = no promise)
 	FaultsEnd  time.Duration `json:"faultsend"` // no injected fault, partition or lost watch event after this instant (0 = there are none at all)
 	ConnOnly   bool `json:"connonly"`   // the only disturbances are connection notifications (store responsive, no outside writer, healthy)
@@ -222,8 +223,9 @@ type ScenarioResult struct {
 
 var watchdogSeconds = 60
 
-func runScenario(t *testing.T, sc *Scenario) *ScenarioResult {
-	res := &ScenarioResult{}
+func runScenario(t *testing.T, sc *Scenario) (res *ScenarioResult) {
+	// (named result: the deferred recover below must still hand the result back when the bubble panics)
+	res = &ScenarioResult{}
 	seedLibraryRand(mix(sc.Seed, 4242))
 	var tr *Trace
 	doneWall := make(chan struct{})
@@ -268,6 +270,7 @@ func runScenario(t *testing.T, sc *Scenario) *ScenarioResult {
 	synctest.Test(t, func(t *testing.T) {
 		tr = newTrace()
 		store := newRefStore(tr, sc.StoreTTL)
+		store.mockErrs = sc.MockErrs
 		store.planFn = func(inst int, op string, nth int) OpPlan {
 			if p, ok := sc.Plans[fmt.Sprintf("%d:%d", inst, nth)]; ok {
 				return p
@@ -500,6 +503,16 @@ func registerCallbacks(rt *instRT) {
 			done = 1
 		}
 		tr.logf("promote %d %d %d %d", id, tr.tok(token), cid, done)
+		if rt.spec.Promote == "slow" {
+			// a callback that ignores its context for longer than Stop is willing to wait (5 s)
+			go func() {
+				<-ctx.Done()
+				tr.logf("ctxdone %d %d", id, cid)
+			}()
+			time.Sleep(6 * time.Second)
+			tr.logf("promote-ret %d %d", id, cid)
+			return
+		}
 		if rt.spec.Promote == "sleep" {
 			// a callback that ignores its context for a while
 			go func() {
@@ -589,6 +602,31 @@ func execStep(tr *Trace, store *RefStore, rts map[int]*instRT, st Step, apiSeq *
 		if c != nil {
 			c()
 		}
+	case "cancelstart":
+		// the application cancels the context it passed to Start and starts the election again in the same breath -
+		// before the library's own reaction to the cancellation has had a chance to run
+		if rt == nil {
+			return
+		}
+		rt.mu.Lock()
+		c := rt.startCancel
+		rt.mu.Unlock()
+		tr.logf("cancelctx %d", st.Inst)
+		if c != nil {
+			c()
+		}
+		n := int(atomic.AddInt32(apiSeq, 1))
+		tr.logf("api %d %d start", n, st.Inst)
+		ctx, cancel := context.WithCancel(context.Background())
+		err := rt.el.Start(ctx)
+		if err == nil {
+			rt.mu.Lock()
+			rt.startCancel = cancel
+			rt.mu.Unlock()
+		} else {
+			cancel()
+		}
+		tr.logf("apiret %d %d %s", n, st.Inst, errs(err))
 	case "stop":
 		if rt == nil {
 			return
